@@ -336,8 +336,32 @@ void vf_case(Ctx& ctx, uint64_t i) {
   int maxexp = (int)ctx.optint("maxexp", 46);
   int magexp = std::min(kMags[(i / 64) % kNumMags], maxexp);
   if (ctx.optint("forcemag", 0) > 0) magexp = (int)ctx.optint("forcemag", 0);     // exploration only
-  gen::Scene sc = gen::gp_scene(r, g_gc, magexp);
-  if (!sc.ok) { ctx.count("gp_gave_up"); return; }
+  gen::Scene sc;
+  const bool flat_lattice = (i % 10 == 3) && ctx.optint("forcemag", 0) == 0;
+  if (flat_lattice) {
+    // dense-scanline flat scenes: everything on a small y range (many vertices share few scanlines) and x stretched by
+    // k, so open and closed edges are all nearly horizontal and cross at very shallow angles
+    magexp = 30;
+    static const int64_t ks[] = { 300, 1000, 3000, 10000 };
+    const int64_t k = ks[r.irange(0, 3)]; const int64_t Y = r.irange(12, 60), X = r.irange(12, 60); const int64_t oy = r.coin() ? -2 * Y : 0;
+    bool ok = false;
+    for (int t = 0; t < 40 && !ok; ++t) {
+      auto poly = [&](int n) { Path64 p; for (int q = 0; q < n; ++q) p.push_back(Point64(r.range(-X, X) * k + r.range(-k / 3, k / 3), r.range(-Y, Y) + oy)); strip_dups_closed(p); return p; };
+      sc.subj.clear(); sc.clip.clear();
+      int ns = r.irange(0, 2), nc = r.irange(1, 2);
+      for (int q = 0; q < ns; ++q) sc.subj.push_back(poly(r.irange(3, 5)));
+      for (int q = 0; q < nc; ++q) sc.clip.push_back(poly(r.irange(3, 5)));
+      Paths64 all = concat(sc.subj, sc.clip);
+      sc.M = max_abs_coord(all);
+      ++g_gc.tries;
+      if (general_position(all, sc.M)) ok = true; else ++g_gc.rejected;
+    }
+    if (!ok) { ctx.count("gp_gave_up"); return; }
+    sc.ok = true; sc.shape = 9; sc.squash = (int)k; ctx.count("flat_lattice_scenes");
+  } else {
+    sc = gen::gp_scene(r, g_gc, magexp);
+    if (!sc.ok) { ctx.count("gp_gave_up"); return; }
+  }
   const int64_t Mmax = (int64_t)1 << magexp;
   bool small = magexp <= 7;
   bool relax = r.chance((double)ctx.optint("relax_permille", 250) / 1000.0);
@@ -372,13 +396,48 @@ void vf_case(Ctx& ctx, uint64_t i) {
     }
   }
   if (O.empty()) { ctx.count("no_open_path_accepted"); return; }
+  // hostile scanline placement (sweep-line tie): nudge one end of an open segment in x until its crossing with a closed
+  // edge lies a hair past the y of some existing vertex (|yc - s| < 1/|dx1-dx2|, not 0), so that the integer curr_x of the
+  // two edges tie at scanline s and the crossing is discovered one scanbeam late
+  if ((flat_lattice && r.chance(0.7)) || (!flat_lattice && r.chance(0.04))) {
+    std::vector<int64_t> ys; for (auto* pp : { &closed_in, &O }) for (auto& p : *pp) for (auto& pt : p) ys.push_back(pt.y);
+    bool done = false;
+    for (int attempt = 0; attempt < 6 && !done; ++attempt) {
+      Path64& op = O[(size_t)r.irange(0, (int)O.size() - 1)]; if (op.size() < 2) continue;
+      size_t si = (size_t)r.irange(0, (int)op.size() - 2); const bool move_first = r.coin();
+      const Path64& cp = closed_in[(size_t)r.irange(0, (int)closed_in.size() - 1)]; size_t ci = (size_t)r.irange(0, (int)cp.size() - 1);
+      const Point64 c0 = cp[ci], c1 = cp[(ci + 1) % cp.size()];
+      if (c0.y == c1.y) continue;
+      const Point64 keep = op[move_first ? si + 1 : si]; const Point64 mv0 = op[move_first ? si : si + 1];
+      auto yc_of = [&](int64_t mx) -> ld { Point64 a(mx, mv0.y); if (!proper_cross(a, keep, c0, c1)) return (ld)NAN; return line_cross(a, keep, c0, c1).y; };
+      ld y_at0 = yc_of(mv0.x); if (!(y_at0 == y_at0)) continue;
+      // nearest vertex y to the crossing
+      int64_t s_best = ys[0]; for (int64_t y : ys) if (fabsl((ld)y - y_at0) < fabsl((ld)s_best - y_at0)) s_best = y;
+      if (fabsl((ld)s_best - y_at0) > 8) continue;
+      ld dxo = ((ld)keep.x - (ld)mv0.x) / std::max<ld>(1, fabsl((ld)keep.y - (ld)mv0.y)), dxc = ((ld)c1.x - (ld)c0.x) / ((ld)c1.y - (ld)c0.y);
+      ld win = 1.0L / std::max<ld>(1.0L, fabsl(dxo - dxc));
+      const int64_t W = std::max<int64_t>(64, (int64_t)llabs(keep.x - mv0.x) / 4);
+      // yc is monotone in the moved x over the range where the crossing persists: bisect for yc = s_best, then scan nearby
+      int64_t lo = mv0.x - W, hi = mv0.x + W; ld ylo = yc_of(lo), yhi = yc_of(hi);
+      if (!(ylo == ylo) || !(yhi == yhi) || (ylo - s_best) * (yhi - s_best) > 0) continue;
+      for (int it = 0; it < 80 && hi - lo > 1; ++it) { int64_t mid = lo + (hi - lo) / 2; ld ym = yc_of(mid); if (!(ym == ym)) break; if ((ylo - s_best) * (ym - s_best) <= 0) { hi = mid; yhi = ym; } else { lo = mid; ylo = ym; } }
+      for (int64_t x = lo - 3; x <= hi + 3 && !done; ++x) {
+        ld y = yc_of(x); if (!(y == y)) continue; ld e = fabsl(y - s_best);
+        if (e > 0 && e < win) {
+          Paths64 O2 = O; Path64& q = O2[(size_t)(&op - &O[0])]; q[move_first ? si : si + 1].x = x;
+          int64_t M = std::max(max_abs_coord(closed_in), max_abs_coord(O2));
+          if (c05::mixed_general_position(closed_in, O2, M, nullptr, relax)) { O.swap(O2); done = true; ctx.count("cases_with_crossing_a_hair_past_a_scanline"); }
+        }
+      }
+    }
+  }
   // anisotropic variant: stretch the whole case (closed and open paths) in x so that open and closed edges are both
   // nearly horizontal (|dx/dy| > 100): the sweep's flat-edge intersection repair is only reached by such scenes
-  if (sc.squash == 0 && magexp >= 20 && r.chance(0.15)) {
+  if (sc.squash == 0 && r.chance(0.2)) {
     static const int64_t ks[] = { 30, 200, 1500, 20000 };
     int64_t k = ks[r.irange(0, 3)];
     int64_t mx = std::max(max_abs_coord(closed_in), max_abs_coord(O));
-    if (mx > 0 && mx <= ((int64_t)1 << std::min(maxexp, 46)) / k) {
+    if (mx > 0 && mx <= ((int64_t)1 << std::min(maxexp, magexp <= 30 ? 36 : 46)) / k) {
       Paths64 S2 = S, C2 = C, O2 = O;
       for (auto* pp : { &S2, &C2, &O2 }) for (auto& p : *pp) for (auto& pt : p) pt.x *= k;
       Paths64 cl2 = concat(S2, C2); int64_t M2 = std::max(max_abs_coord(cl2), max_abs_coord(O2));
